@@ -23,8 +23,8 @@ func init() {
 	})
 	property(&Property{
 		ID:      "C05",
-		Rules:   []string{"SA-J", "SA-JT", "SA-J3", "SA-JT3"},
-		Explain: "The transition relation of the formats/json scanner is extracted from its own Next() method by abstract interpretation of the SSA (scanner object tracked exactly, one input byte at a time, positions symbolic) and compared, by breadth-first product construction, with a reference RFC 8259 byte transducer: in every reachable state pair up to the nesting bound (2 quick, 4 thorough), for each of the 256 byte values and for end of input, the scanner rejects iff the reference rejects, accepts end of input iff the reference does (including the empty-document rule of Document.check), in strict mode and with AllowTrailingNonSpaceCharacters. Literal tokens (strings, numbers, true/false/null) are unbounded in length: their automaton states are merged, so the token language is decided for all lengths.",
+		Rules:   []string{"SA-J", "SA-JT", "SA-J3", "SA-JT3", "SA-Jglue"},
+		Explain: "SA-Jglue: the one rule Document.Check adds to the scanner's verdict — a text for which the scanner delivers no lexeme is rejected as empty JSON, any other text is accepted when the scanner ends normally, scanner errors are returned unchanged — is read off Document.check and Document.nextLexeme themselves (scanner replaced by a staged oracle); the product rules take it as given. The transition relation of the formats/json scanner is extracted from its own Next() method by abstract interpretation of the SSA (scanner object tracked exactly, one input byte at a time, positions symbolic) and compared, by breadth-first product construction, with a reference RFC 8259 byte transducer: in every reachable state pair up to the nesting bound (2 quick, 4 thorough), for each of the 256 byte values and for end of input, the scanner rejects iff the reference rejects, accepts end of input iff the reference does (including the empty-document rule of Document.check), in strict mode and with AllowTrailingNonSpaceCharacters. Literal tokens (strings, numbers, true/false/null) are unbounded in length: their automaton states are merged, so the token language is decided for all lengths.",
 		Assume: []string{
 			"nesting deeper than the bound is not explored (the scanner inspects only the top two stack entries)",
 			"the glue in Document.check/nextLexeme (recover, EndTop => EOF, zero lexemes => ErrEmptyJson) is modelled in the driver as read on the pinned tree; a change there is outside this rule",
